@@ -98,14 +98,42 @@ class LoopTrace:
         self.pc_len = 0
 
 
-class LoopSpec:
-    """hand-written loop contract: ``invariant(interp, frame, k)`` -> z3 Bool for the state before
-    iteration ``k``;  ``havoc`` lists local names that are modified;  arrays listed in
-    ``havoc_arrays`` get fresh contents."""
+class PathCut(Exception):
+    """the current path ends here (e.g. after proving that a loop body preserves the invariant)"""
 
-    def __init__(self, invariant, havoc=(), havoc_arrays=(), name="inv", after=None):
-        self.invariant, self.havoc, self.havoc_arrays, self.name = invariant, list(havoc), list(havoc_arrays), name
-        self.after = after
+
+class LoopSpec:
+    """hand-written loop contract (classic invariant rule).
+
+    ``invariant(interp, frame)`` -> z3 Bool over the current state;  ``havoc(interp, frame)`` replaces
+    everything the loop may modify by fresh symbolic values.  Obligations generated:
+    ``<name>.init`` (invariant holds on entry), ``<name>.preserved`` (one arbitrary iteration keeps it);
+    after the loop the invariant and the negated condition are assumed."""
+
+    def __init__(self, invariant, havoc, name="loop_invariant"):
+        self.invariant, self.havoc, self.name = invariant, havoc, name
+
+    def run(self, interp, st, fr, rng, target):
+        ctx = interp.ctx
+        if rng is not None:
+            raise Unsupported("invariant rule for `for` loops is provided by ForLoopSpec")
+        ctx.prove(f"{self.name}.init", self.invariant(interp, fr))
+        self.havoc(interp, fr)
+        ctx.assume_pc(self.invariant(interp, fr))
+        c = interp.truth(interp.eval(st.test, fr))
+        if isinstance(c, Opaque):
+            raise Unsupported("loop condition on unmodelled value")
+        take = c if isinstance(c, bool) else ctx.branch(c)
+        if take:
+            try:
+                interp.exec_block(st.body, fr)
+            except _Continue:
+                pass
+            except _Break:
+                return  # leaves the loop from an arbitrary iteration: continue after the loop
+            ctx.prove(f"{self.name}.preserved", self.invariant(interp, fr))
+            raise PathCut()
+        interp.exec_block(st.orelse, fr)
 
 
 class Interp:
